@@ -53,9 +53,11 @@ class Fn:
         self.static = raw.get("static", False)
         self.params = [p["n"] for p in raw.get("params", [])]
         self.blocks = {b["id"]: b for b in raw.get("blocks", [])}
+        self._thread_logical_joins()
         self.entry = raw.get("entry")
         self.exit = raw.get("exit")
         self.noreturn_attr = raw.get("nr", False)
+        self.absorbed_into = None
         self._nodes = None
         self._succ = None
         self._pred = None
@@ -66,6 +68,48 @@ class Fn:
 
     def __repr__(self):
         return "Fn(%s:%s)" % (self.file, self.name)
+
+    def _thread_logical_joins(self):
+        """clang decomposes `a || b` / `a && b` used directly as a condition into one block per operand,
+        but for `!(a || b)` (and `!(a && b)`) it evaluates the operator into a *join* block and branches
+        on the negation there, so the short-circuit edge loses what it knows.  On that edge the value of
+        the operator - hence of the whole condition - is fixed: re-target it to the successor the join
+        block would take.  Equivalent spellings of a condition (De Morgan) then give the same graph."""
+        for J in list(self.blocks.values()):
+            t = J.get("t")
+            if not t or not isinstance(t.get("c"), dict) or t.get("k") in ("||", "&&", "switch") or J.get("ev"):
+                continue
+            js = J.get("s", [])
+            if len(js) != 2 or js[0] is None or js[1] is None:
+                continue
+            c = T.strip(t["c"])
+            neg = False
+            while isinstance(c, dict) and c.get("k") == "u" and c.get("o") == "!":
+                neg = not neg
+                c = T.strip(c["e"])
+            if not (isinstance(c, dict) and c.get("k") == "b" and c.get("o") in ("||", "&&")):
+                continue
+            if not neg:
+                continue        # a plain logical operator is already decomposed by clang
+            op = c["o"]
+            operands = []
+            x = c
+            while isinstance(x, dict) and x.get("k") == "b" and x.get("o") == op:
+                operands.append(T.pp(T.strip(x["r"])))
+                x = T.strip(x["l"])
+            operands.append(T.pp(x))
+            idx = 0 if op == "||" else 1
+            for P in self.blocks.values():
+                tp = P.get("t")
+                if not tp or tp.get("k") != op or not isinstance(tp.get("c"), dict):
+                    continue
+                ps = P.get("s", [])
+                if len(ps) > idx and ps[idx] == J["id"] and T.pp(T.strip(tp["c"])) in operands:
+                    value = (op == "||")            # the operator's value on its short-circuit edge
+                    cond = (not value) if neg else value
+                    ps = list(ps)
+                    ps[idx] = js[0] if cond else js[1]
+                    P["s"] = ps
 
     # --- event-level graph ---------------------------------------------------------
     def _build(self):
@@ -156,14 +200,23 @@ class Fn:
             return None
         c = t["c"]
         # a block ending a short-circuit chain decides on its last-evaluated operand: the
-        # earlier operands were decided by the preceding blocks
+        # earlier operands were decided by the preceding blocks (also under a negation, see
+        # _thread_logical_joins)
+        flip = False
         while True:
             c0 = T.strip(c)
             if isinstance(c0, dict) and c0.get("k") == "b" and c0.get("o") in ("&&", "||"):
                 c = c0["r"]
                 continue
+            if isinstance(c0, dict) and c0.get("k") == "u" and c0.get("o") == "!":
+                inner = T.strip(c0["e"])
+                if isinstance(inner, dict) and inner.get("k") == "b" and inner.get("o") in ("&&", "||"):
+                    flip = not flip
+                    c = inner["r"]
+                    continue
             break
-        return T.norm_cond(c)
+        atom, pos = T.norm_cond(c)
+        return atom, (pos != flip)
 
     # --- reachability ----------------------------------------------------------------
     def reach(self, starts, avoid=(), edge_ok=None, include_starts=True):
@@ -328,6 +381,248 @@ def line_path(path, limit=40):
     return out
 
 
+# --- absorbing anonymous helpers -------------------------------------------------------------
+# A static function that is small, called from exactly one place, never has its address taken and
+# is not named by any rule is - from the rules' point of view - just a part of its caller: that is
+# what "extract a few statements into a helper" produces.  Such helpers are spliced into the
+# caller's event graph (blocks copied with fresh ids, parameters replaced by the argument
+# expressions, `return e` turned into a store to a result variable that replaces the call's value
+# in the caller), so that every intraprocedural rule sees the same events on the same paths before
+# and after the extraction.  Helpers the rules know by name stay separate functions.
+
+INLINE_MAX_BLOCKS = 40
+import os as _os
+INLINE_HELPERS = _os.environ.get("VERIF_NO_INLINE") is None
+
+
+def _known_names():
+    import glob, os, re
+    here = os.path.dirname(os.path.dirname(os.path.abspath(__file__)))
+    names = set()
+    for p in glob.glob(os.path.join(here, "rules", "*.py")) + glob.glob(os.path.join(here, "vlib", "*.py")):
+        try:
+            txt = open(p).read()
+        except OSError:
+            continue
+        names.update(re.findall(r"[\"']([A-Za-z_][A-Za-z0-9_]*)[\"']", txt))
+    # reference lists name functions as file:function
+    for p in glob.glob(os.path.join(here, "rules", "ref", "*.tsv")):
+        try:
+            txt = open(p).read()
+        except OSError:
+            continue
+        names.update(re.findall(r"\.[ch]:([A-Za-z_][A-Za-z0-9_]*)", txt))
+    return names
+
+
+def _walk_exprs_of_block(b):
+    for ev in b.get("ev", []):
+        for key in ("x", "lhs", "rhs"):
+            if isinstance(ev.get(key), dict):
+                yield ev, key
+    t = b.get("t")
+    if t and isinstance(t.get("c"), dict):
+        yield t, "c"
+
+
+def _map_tree(e, f):
+    """rebuild expression tree e bottom-up, replacing each dict node x by f(x) (f returns a node)"""
+    if isinstance(e, list):
+        return [_map_tree(x, f) for x in e]
+    if not isinstance(e, dict):
+        return e
+    out = {}
+    for k, v in e.items():
+        out[k] = _map_tree(v, f) if isinstance(v, (dict, list)) else v
+    return f(out)
+
+
+def _splice(raw_a, raw_h):
+    """-> new raw of the caller with the (single) call to raw_h['name'] followed by the helper's body"""
+    import copy
+    hname = raw_h["name"]
+    blocks = copy.deepcopy(raw_a["blocks"])
+    site = None
+    for b in blocks:
+        for i, ev in enumerate(b.get("ev", [])):
+            if ev["e"] == "C" and ev["x"].get("fn") == hname:
+                site = (b, i)
+                break
+        if site:
+            break
+    if site is None:
+        return None
+    B, i = site
+    call = B["ev"][i]["x"]
+    args = call.get("a", [])
+    maxid = max(b["id"] for b in blocks)
+    hblocks = copy.deepcopy(raw_h["blocks"])
+    hexit = raw_h.get("exit")
+    idmap = {}
+    k = maxid + 1
+    b2id = k
+    k += 1
+    for hb in hblocks:
+        if hb["id"] == hexit:
+            idmap[hb["id"]] = b2id
+        else:
+            idmap[hb["id"]] = k
+            k += 1
+    # names
+    a_vars = set()
+    for b in blocks:
+        for holder, key in _walk_exprs_of_block(b):
+            for x in T.walk(holder[key]):
+                if isinstance(x, dict) and x.get("k") == "v" and x.get("s") in ("l", "p"):
+                    a_vars.add(x["n"])
+    params = [p["n"] for p in raw_h.get("params", [])]
+    assigned = set()
+    for hb in hblocks:
+        for ev in hb.get("ev", []):
+            if ev["e"] == "S":
+                l = T.strip(ev["lhs"])
+                if isinstance(l, dict) and l.get("k") == "v":
+                    assigned.add(l["n"])
+            for key in ("x", "lhs", "rhs"):
+                if isinstance(ev.get(key), dict):
+                    for x in T.walk(ev[key]):
+                        if isinstance(x, dict) and x.get("k") == "u" and x.get("o") == "&":
+                            inner = T.strip(x.get("e"))
+                            if isinstance(inner, dict) and inner.get("k") == "v":
+                                assigned.add(inner["n"])
+    subst = {}
+    pre = []
+    for j, p in enumerate(params):
+        a = args[j] if j < len(args) else None
+        if a is None:
+            continue
+        if p in assigned:
+            nn = p + "@" + hname
+            subst[p] = {"k": "v", "n": nn, "s": "l", "t": ""}
+            pre.append({"e": "S", "l": B["ev"][i].get("l", 0), "t": "%s = <argument>" % nn, "o": "=",
+                        "lhs": {"k": "v", "n": nn, "s": "l", "t": ""}, "rhs": copy.deepcopy(a)})
+        else:
+            subst[p] = a
+    retvar = {"k": "v", "n": "$ret@" + hname, "s": "l", "t": raw_h.get("ret", "")}
+
+    def sub(x):
+        if x.get("k") == "v":
+            if x.get("s") == "p" and x["n"] in subst:
+                return copy.deepcopy(subst[x["n"]])
+            if x.get("s") == "l" and x["n"] in a_vars and x["n"] not in params:
+                y = dict(x)
+                y["n"] = x["n"] + "@" + hname
+                return y
+        return x
+    newh = []
+    for hb in hblocks:
+        if hb["id"] == hexit:
+            continue
+        nb = dict(hb)
+        nb["id"] = idmap[hb["id"]]
+        nb["s"] = [idmap.get(t_, t_) if t_ is not None and t_ >= 0 else t_ for t_ in hb.get("s", [])]
+        evs = []
+        for ev in hb.get("ev", []):
+            ev = dict(ev)
+            for key in ("x", "lhs", "rhs"):
+                if isinstance(ev.get(key), dict):
+                    ev[key] = _map_tree(ev[key], sub)
+            if ev["e"] == "R":
+                if isinstance(ev.get("x"), dict):
+                    ev = {"e": "S", "l": ev.get("l", 0), "t": ev.get("t", ""), "o": "=", "lhs": dict(retvar), "rhs": ev["x"],
+                          "inl_ret": True}
+                else:
+                    continue
+            evs.append(ev)
+        nb["ev"] = evs
+        if nb.get("t") and isinstance(nb["t"].get("c"), dict):
+            nb["t"] = dict(nb["t"])
+            nb["t"]["c"] = _map_tree(nb["t"]["c"], sub)
+        if nb.get("lab") and nb["lab"].get("label"):
+            nb["lab"] = dict(nb["lab"])
+            nb["lab"]["label"] = hname + "." + nb["lab"]["label"]
+        newh.append(nb)
+    # split the call's block
+    cid = call.get("id")
+
+    def use_ret(x):
+        if x.get("k") == "c" and cid is not None and x.get("id") == cid:
+            return dict(retvar)
+        return x
+    B2 = {"id": b2id, "ev": [], "s": B.get("s", []), "l": B.get("l", 0)}
+    for ev in B["ev"][i + 1:]:
+        ev = dict(ev)
+        for key in ("x", "lhs", "rhs"):
+            if isinstance(ev.get(key), dict):
+                ev[key] = _map_tree(ev[key], use_ret)
+        B2["ev"].append(ev)
+    if B.get("t"):
+        t2 = dict(B["t"])
+        if isinstance(t2.get("c"), dict):
+            t2["c"] = _map_tree(t2["c"], use_ret)
+        B2["t"] = t2
+    if B.get("nr"):
+        B2["nr"] = B["nr"]
+    B["ev"] = B["ev"][:i + 1] + pre
+    B["s"] = [idmap[raw_h["entry"]]]
+    B.pop("t", None)
+    B.pop("nr", None)
+    out = dict(raw_a)
+    out["blocks"] = blocks + newh + [B2]
+    out["absorbed"] = list(raw_a.get("absorbed", [])) + [hname] + list(raw_h.get("absorbed", []))
+    return out
+
+
+def absorb_helpers(fns, addr_taken, known):
+    """-> (new function list for the unit, names of absorbed helpers)"""
+    byname = {}
+    for f in fns:
+        byname.setdefault(f.name, f)
+    sites = defaultdict(list)
+    for f in fns:
+        for b in f.raw.get("blocks", []):
+            for ev in b.get("ev", []):
+                if ev["e"] == "C" and ev["x"].get("fn") in byname:
+                    sites[ev["x"]["fn"]].append(f)
+    into = {}
+    for h in fns:
+        if not h.static or not h.file.endswith(".c") or h.name in addr_taken or h.name in known:
+            continue
+        if len(h.raw.get("blocks", [])) > INLINE_MAX_BLOCKS or h.raw.get("entry") is None:
+            continue
+        s = sites.get(h.name, [])
+        if len(s) == 1 and s[0] is not h and s[0].file == h.file:
+            into[h.name] = s[0].name
+    if not into:
+        return fns, set()
+    memo = {}
+
+    def inl(name, depth=0):
+        if name in memo:
+            return memo[name]
+        raw = byname[name].raw
+        if depth < 4:
+            for hn, cn in into.items():
+                if cn == name and hn != name:
+                    r2 = _splice(raw, inl(hn, depth + 1))
+                    if r2 is not None:
+                        raw = r2
+        memo[name] = raw
+        return raw
+    out = []
+    for f in fns:
+        raw = inl(f.name) if (f.name in into.values() and byname.get(f.name) is f) else f.raw
+        if raw is not f.raw:
+            g = Fn(raw, f.uid)
+            out.append(g)
+        else:
+            out.append(f)
+    for f in out:
+        if f.name in into and byname.get(f.name).raw is f.raw:
+            f.absorbed_into = into[f.name]
+    return out, set(into)
+
+
 class Program:
     """function set of one linked program"""
 
@@ -352,9 +647,11 @@ class Program:
         self._nr = None
 
     def functions(self):
+        """functions of the program; helpers absorbed into their caller are part of it and not listed"""
         for l in self.by_name.values():
             for f in l:
-                yield f
+                if f.absorbed_into is None:
+                    yield f
 
     def fn(self, name, file=None):
         """unique function by name (and optional file); Broken if absent"""
@@ -797,6 +1094,13 @@ class World:
         self.records = {}
         self.addr_taken = set()
         self.n_functions = 0
+        self.n_absorbed = 0
+        self.unit_fns_plain = {}
+        known = _known_names() if INLINE_HELPERS else set()
+        _addr_all = set()
+        if INLINE_HELPERS:
+            for u in self.units:
+                _addr_all.update(facts.load_unit(self.paths[u.uid]).get("addr_taken", []))
         for u in self.units:
             d = facts.load_unit(self.paths[u.uid])
             fl = []
@@ -804,6 +1108,10 @@ class World:
                 if raw.get("nocfg"):
                     continue
                 fl.append(Fn(raw, u.uid))
+            self.unit_fns_plain[u.uid] = fl
+            if INLINE_HELPERS:
+                fl, ab = absorb_helpers(fl, set(d.get("addr_taken", [])) | _addr_all, known)
+                self.n_absorbed += len(ab)
             self.unit_fns[u.uid] = fl
             self.n_functions += len(fl)
             self.unit_globals[u.uid] = d.get("globals", [])
@@ -812,7 +1120,23 @@ class World:
             self.addr_taken.update(d.get("addr_taken", []))
         self._programs = {}
 
-    def program(self, name):
+    def program(self, name, plain=False):
+        """plain=True: the functions exactly as written (no helper absorbed); for analyses that reason
+        about helpers as functions (return-value classification)"""
+        if plain:
+            key = name + "#plain"
+            if key not in self._programs:
+                saved = self.unit_fns
+                self.unit_fns = {u: [Fn(f.raw, f.uid) for f in fl] for u, fl in self.unit_fns_plain.items()} \
+                    if not hasattr(self, "_plain_fns") else self._plain_fns
+                self._plain_fns = self.unit_fns
+                try:
+                    self._programs.pop(name + "#tmp", None)
+                    p = self._mk_program(name)
+                finally:
+                    self.unit_fns = saved
+                self._programs[key] = p
+            return self._programs[key]
         if name in self._programs:
             return self._programs[name]
         if name not in compdb.PROGRAMS:
@@ -825,6 +1149,14 @@ class World:
         p = Program(self, name, uids)
         self._programs[name] = p
         return p
+
+    def _mk_program(self, name):
+        uids = []
+        for g in compdb.PROGRAMS[name]:
+            if g not in self.groups:
+                raise Broken("unit group %s missing from the build" % g)
+            uids.extend(self.groups[g])
+        return Program(self, name, uids)
 
     def globals_named(self, name, program=None):
         out = []
